@@ -33,6 +33,7 @@ import (
 	sphinx "github.com/lightningnetwork/lightning-onion"
 	"github.com/lightningnetwork/lnd/channeldb"
 	"github.com/lightningnetwork/lnd/chanstate"
+	"github.com/lightningnetwork/lnd/contractcourt"
 	"github.com/lightningnetwork/lnd/htlcswitch/hop"
 	"github.com/lightningnetwork/lnd/input"
 	"github.com/lightningnetwork/lnd/keychain"
@@ -41,6 +42,7 @@ import (
 	"github.com/lightningnetwork/lnd/lnwallet/chainfee"
 	"github.com/lightningnetwork/lnd/lnwire"
 	"github.com/lightningnetwork/lnd/shachain"
+	"github.com/lightningnetwork/lnd/ticker"
 )
 
 // ---------------------------------------------------------------------------
@@ -453,6 +455,7 @@ var c08KindNames = [...]string{
 type c08Event struct {
 	seq     int
 	phase   int
+	epoch   int // connection epoch of the edge (restart or link flap)
 	edge    c08Edge
 	kind    c08Kind
 	id      uint64
@@ -481,6 +484,7 @@ type c08Tap struct {
 
 	log        []c08Event
 	phase      int
+	epoch      [c08NumEdges]int
 	phaseCount int
 	kindCount  [c08NumEdges][c08NumKinds]int
 	cut        [c08NumEdges]bool
@@ -509,10 +513,33 @@ func (t *c08Tap) newPhase(p int) {
 	defer t.mu.Unlock()
 
 	t.phase = p
+	for i := range t.epoch {
+		t.epoch[i]++
+	}
 	t.phaseCount = 0
 	t.kindCount = [c08NumEdges][c08NumKinds]int{}
 	t.cut = [c08NumEdges]bool{}
 	t.lastEvent = time.Now()
+}
+
+// reconnect is called while both links of a channel are down (link flap):
+// the cut heals, a new connection epoch starts on both edges.
+func (t *c08Tap) reconnect(e c08Edge) {
+	t.mu.Lock()
+	defer t.mu.Unlock()
+
+	for _, x := range []c08Edge{e, e.reverse()} {
+		t.cut[x] = false
+		t.epoch[x]++
+	}
+	t.lastEvent = time.Now()
+}
+
+func (t *c08Tap) epochs() [c08NumEdges]int {
+	t.mu.Lock()
+	defer t.mu.Unlock()
+
+	return t.epoch
 }
 
 // touch restarts the idle clock (after the harness injected work).
@@ -591,6 +618,7 @@ func (t *c08Tap) interceptor(server string) messageInterceptor {
 		defer t.mu.Unlock()
 
 		ev.phase = t.phase
+		ev.epoch = t.epoch[ev.edge]
 		ev.seq = len(t.log)
 		if ev.kind < c08NumFaultKinds {
 			// only HTLC traffic counts for the harness' triggers
@@ -677,4 +705,112 @@ func c08Hops(amt lnwire.MilliSatoshi, feeDelta int64, cltvDefect uint32,
 		mk(lastLink.channel.ShortChanID(), amt, finalCltv),
 		mk(hop.Exit, amt, finalCltv),
 	}
+}
+
+// ---------------------------------------------------------------------------
+// Link creation for a single-channel reconnect while the switches keep
+// running: hopNetwork.createChannelLink with the hooks set BEFORE the link is
+// started (AddLink starts it) and a fresh error encrypter per call.
+// ---------------------------------------------------------------------------
+
+type c08LinkHooks struct {
+	onFailure func(LinkFailureError)
+	onActive  func()
+}
+
+func c08CreateLink(h *hopNetwork, server, peer *mockServer,
+	channel *lnwallet.LightningChannel, decoder *mockIteratorDecoder,
+	hooks c08LinkHooks) (*channelLink, error) {
+
+	const (
+		fwdPkgTimeout       = 15 * time.Second
+		minFeeUpdateTimeout = 30 * time.Minute
+		maxFeeUpdateTimeout = 40 * time.Minute
+	)
+
+	notifyUpdateChan := make(chan *contractcourt.ContractUpdate)
+	doneChan := make(chan struct{})
+	notifyContractUpdate := func(u *contractcourt.ContractUpdate) error {
+		select {
+		case notifyUpdateChan <- u:
+		case <-doneChan:
+		}
+
+		return nil
+	}
+	forwardPackets := func(linkQuit <-chan struct{}, _ bool,
+		packets ...*htlcPacket) error {
+
+		return server.htlcSwitch.ForwardPackets(linkQuit, packets...)
+	}
+
+	//nolint:ll
+	link := NewChannelLink(
+		ChannelLinkConfig{
+			BestHeight:         server.htlcSwitch.BestHeight,
+			FwrdingPolicy:      h.globalPolicy,
+			Peer:               peer,
+			Circuits:           server.htlcSwitch.CircuitModifier(),
+			ForwardPackets:     forwardPackets,
+			DecodeHopIterators: decoder.DecodeHopIterators,
+			ExtractErrorEncrypter: func(*btcec.PublicKey) (
+				hop.ErrorEncrypter, lnwire.FailCode) {
+
+				return NewMockObfuscator(), lnwire.CodeNone
+			},
+			FetchLastChannelUpdate: mockGetChanUpdateMessage,
+			Registry:               server.registry,
+			FeeEstimator:           h.feeEstimator,
+			PreimageCache:          server.pCache,
+			UpdateContractSignals: func(*contractcourt.ContractSignals) error {
+				return nil
+			},
+			NotifyContractUpdate: notifyContractUpdate,
+			ChainEvents:          &contractcourt.ChainEventSubscription{},
+			SyncStates:           true,
+			BatchSize:            10,
+			BatchTicker:          ticker.NewForce(testBatchTimeout),
+			FwdPkgGCTicker:       ticker.NewForce(fwdPkgTimeout),
+			PendingCommitTicker:  ticker.New(2 * time.Minute),
+			MinUpdateTimeout:     minFeeUpdateTimeout,
+			MaxUpdateTimeout:     maxFeeUpdateTimeout,
+			OnChannelFailure: func(_ lnwire.ChannelID,
+				_ lnwire.ShortChannelID, e LinkFailureError) {
+
+				hooks.onFailure(e)
+			},
+			OutgoingCltvRejectDelta: 3,
+			MaxOutgoingCltvExpiry:   DefaultMaxOutgoingCltvExpiry,
+			MaxFeeAllocation:        DefaultMaxLinkFeeAllocation,
+			MaxAnchorsCommitFeeRate: chainfee.SatPerKVByte(10 * 1000).FeePerKWeight(),
+			NotifyActiveLink:        func(wire.OutPoint) {},
+			NotifyActiveChannel:     func(wire.OutPoint) { hooks.onActive() },
+			NotifyInactiveChannel:   func(wire.OutPoint) {},
+			NotifyInactiveLinkEvent: func(wire.OutPoint) {},
+			NotifyChannelUpdate:     func(*chanstate.OpenChannel) {},
+			HtlcNotifier:            server.htlcSwitch.cfg.HtlcNotifier,
+			GetAliases: func(lnwire.ShortChannelID) []lnwire.ShortChannelID {
+				return nil
+			},
+			ShouldFwdExpAccountability: func() bool { return true },
+		},
+		channel,
+	)
+	if err := server.htlcSwitch.AddLink(link); err != nil {
+		return nil, fmt.Errorf("unable to add channel link: %w", err)
+	}
+	chanLink := link.(*channelLink)
+
+	go func() {
+		for {
+			select {
+			case <-notifyUpdateChan:
+			case <-chanLink.cg.Done():
+				close(doneChan)
+				return
+			}
+		}
+	}()
+
+	return chanLink, nil
 }
